@@ -127,6 +127,10 @@ def base_component(comp, n):
     if kind == "const":
         v = num(comp["value"])
         return lambda x: v
+    if kind == "shift":
+        inner = base_component(comp["base"], n)
+        add = float(comp["add"])
+        return lambda x: inner(x) + add
     raise ValueError(kind)
 
 
